@@ -45,12 +45,29 @@ constexpr ApplyAs categorize_magnitude(Magnitude<BPs...>) {
 template <typename Mag, ApplyAs Category, typename T, bool is_T_integral>
 struct ApplyMagnitudeImpl;
 
+// The extreme value that can be multiplied by `mag_value` without passing `limit`.
+//
+// For integral types, this is simply the quotient.  For floating point types, the quotient gets
+// _rounded_ --- possibly away from zero, in which case the rounded quotient itself would overflow
+// when multiplied (e.g., `double`: `(max / 12) * 12` is infinite).  Pulling the bound back by one
+// part in 2^digits makes the bound itself safe to multiply.
+template <typename T, bool IsFloatingPoint = std::is_floating_point<T>::value>
+struct ProductBound {
+    static constexpr T compute(T limit, T mag_value) { return limit / mag_value; }
+};
+template <typename T>
+struct ProductBound<T, true> {
+    static constexpr T compute(T limit, T mag_value) {
+        return (limit / mag_value) * (T{1} - std::numeric_limits<T>::epsilon());
+    }
+};
+
 template <typename T, bool IsMagnitudeValid>
 struct OverflowChecker {
     // Default case: `IsMagnitudeValid` is true.
     static constexpr bool would_product_overflow(T x, T mag_value) {
-        return (x > (std::numeric_limits<T>::max() / mag_value)) ||
-               (x < (std::numeric_limits<T>::lowest() / mag_value));
+        return (x > ProductBound<T>::compute(std::numeric_limits<T>::max(), mag_value)) ||
+               (x < ProductBound<T>::compute(std::numeric_limits<T>::lowest(), mag_value));
     }
 };
 
